@@ -12,7 +12,13 @@ Faults : ONE CASE = ONE CONVERSATION x ALL ITS FAULT PLANS.  `prop` first runs t
              "pairs"    every single and every unordered pair of call sites                 (thorough tier, some v1 quick cases)
              [[site, ...], ...]   explicit plans (replay files of single plans)
          so the plan set is a pure function of the case (replays reproduce) and nothing is sampled.  The fault is an
-         `InjectedFault(RuntimeError)` (or, per case, an exception with an empty message, asyncio.TimeoutError, AssertionError, KeyError, a multi-line ValueError, OSError) raised by the fake action through the harness hook `Session.should_fail` (overridden in
+         `InjectedFault(RuntimeError)` or, per case (case["exc"], pool EXC_KINDS, 12 equally weighted families), any other
+         subclass of Exception: empty message, asyncio.TimeoutError, AssertionError, KeyError / LookupError / IndexError, a
+         multi-line ValueError, UnicodeDecodeError, OSError, NotImplementedError (with / without message, a subclass),
+         RecursionError, StopIteration / StopAsyncIteration (inside the `async def` action), ArithmeticError /
+         ZeroDivisionError, AttributeError / TypeError, and two classes defined here (str() and repr() raise; non-string
+         args).  BaseException-only classes (CancelledError, KeyboardInterrupt) legitimately propagate: not generated.
+         The exception is raised by the fake action through the harness hook `Session.should_fail` (overridden in
          `FaultSession` so that a site is addressed relative to its turn: an earlier fault that shortens a rail chain does not
          shift the address of a later site).  Only registered custom actions fail; the LLM never does (excluded by the statement).
 Oracle : per plan, on the value returned by `generate`, the action trace and the scripted LLM's call log:
@@ -56,15 +62,23 @@ RULE = (
     "config.yml or hand-written; v1 retrieval rail 0/1; a custom dialog action on route act_llm) x conversation of 2-3 turns "
     "(route and accept|reject|rewrite verdict per (rail, turn)) x ALL fault plans of that conversation: prop runs the conversation "
     "fault-free, takes every fake-action invocation of that dry run as a call site [action, turn, j-th call in the turn] and then "
-    "re-runs the conversation once per plan with RuntimeError raised at the plan's sites - every single site (plans='singles') "
+    "re-runs the conversation once per plan with the case's exception raised at the plan's sites (case['exc']: the harness's RuntimeError "
+    "subclass with a one-line message, or one of the 21 other kinds of EXC_KINDS - 12 equally weighted families: plain-message, runtime-error "
+    "(empty message, RecursionError), timeout, assertion, lookup (KeyError, LookupError, IndexError), value-error (multi-line ValueError, "
+    "UnicodeDecodeError), os-error, not-implemented (NotImplementedError with / without message, a subclass), stop-iteration (StopIteration, "
+    "StopAsyncIteration inside the async action), arithmetic, attribute-or-type, harness-class (str()/repr() raise; non-string args); only "
+    "Exception subclasses, never BaseException-only ones; share visible in the labels raises-family=<family> and the counters cases.raises.<kind>) - every single site (plans='singles') "
     "and additionally every unordered pair of sites (plans='pairs': all thorough-tier cases and ~1/6 of the v1 quick cases); "
     "plans are enumerated inside prop, never sampled; their numbers are reported in coverage.counters (plans, plans.single, "
-    "plans.pair, fault.<version>.<site class>, fault.turn>=2, next-turn-compared). evaluations counts cases (conversations), not plans. "
+    "plans.pair, fault.<version>.<site class>, fault.turn>=2, next-turn-compared). Enumerated part: 10 all-accepting 3-turn conversations "
+    "(every site class in every turn, both versions, plain fault) + every exception kind of the pool x {v1, v2} on a 2-turn conversation with input-rail, "
+    "output-rail and dialog-action sites (single plans). evaluations counts cases (conversations), not plans. "
     "Non-trivial case = at least one executed plan whose fault hit an input- or output-rail action; distinct by the whole case "
     "(configuration + conversation + plan mode), so distinct_nontrivial counts conversations, each standing for all its plans."
 )
 ASSUMPTIONS = [
-    "actions are fakes registered with register_action; the fault is a RuntimeError subclass raised inside the action body at its k-th invocation (Session.should_fail hook); LLM provider failures are excluded as the statement says",
+    "actions are fakes (async functions) registered with register_action; the fault is an exception raised inside the action body at its k-th invocation (Session.should_fail hook): a RuntimeError subclass or, per case, another subclass of Exception from the pool EXC_KINDS; LLM provider failures are excluded as the statement says",
+    "'raises an exception' is read as 'raises any subclass of Exception': BaseException-only classes (asyncio.CancelledError, KeyboardInterrupt, SystemExit) propagate by design and are not injected; a StopIteration raised in an async action reaches the dispatcher as the RuntimeError Python turns it into (PEP 479)",
     "the shipped self check rails are part of the rail pool but are not fault sites: their only failure mode is the LLM call",
     "Colang 2.x rails are generated in the guardrails-library convention only (`$allowed = await A(...)` / `if not $allowed` / refuse / abort); a rail testing `if $flagged` fails open by construction and is out of scope",
     "the caller keeps the conversation like the server does: v1 passes previous user messages and returned replies back as `messages`, v2 the returned `state`",
@@ -86,7 +100,27 @@ def _multiline_error():
     return ValueError("first line\nsecond line {{ x }} $y\n")
 
 
-# what the failing custom action raises: "for all exceptions", not only ones that carry a one-line message
+class StubNotImplemented(NotImplementedError):
+    """Subclass of NotImplementedError, as raised by a backend adapter whose method is a stub."""
+
+
+class UnprintableError(Exception):
+    """An exception whose message cannot be rendered: str() and repr() raise (a buggy __str__ in a third-party client)."""
+
+    def __str__(self):
+        raise TypeError("__str__ of UnprintableError is broken")
+
+    __repr__ = __str__
+
+
+class StructuredError(Exception):
+    """An exception whose args are not strings (an error code, a payload dict, None)."""
+
+
+# what the failing custom action raises: "for all exceptions" = any subclass of Exception, not only ones that carry a one-line
+# message.  BaseException-only classes (CancelledError, KeyboardInterrupt, SystemExit, GeneratorExit) legitimately propagate
+# and are not generated.  All fake actions are `async def`, so "stopiter" exercises PEP 479 (the coroutine turns StopIteration
+# into RuntimeError) and "stopasync" leaves the coroutine unchanged.
 EXC_KINDS = {
     "empty": RuntimeError,  # str(e) == ""
     "timeout": asyncio.TimeoutError,  # what asyncio.wait_for raises around a slow service; empty message too
@@ -94,6 +128,31 @@ EXC_KINDS = {
     "key": lambda: KeyError("missing"),
     "multiline": _multiline_error,
     "oserror": lambda: OSError(5, "Input/output error"),
+    # classes that library code catches for its own purposes somewhere (sync fallback, iteration protocol, lookups)
+    "notimpl": lambda: NotImplementedError("moderation backend is not implemented yet"),
+    "notimpl-bare": NotImplementedError,
+    "notimpl-sub": lambda: StubNotImplemented("stub"),
+    "lookup": lambda: LookupError("no such entry"),
+    "index": lambda: IndexError("list index out of range"),
+    "unicode": lambda: UnicodeDecodeError("utf-8", b"\xff\xfe", 0, 1, "invalid start byte"),
+    "recursion": lambda: RecursionError("maximum recursion depth exceeded"),
+    "stopiter": lambda: StopIteration("exhausted"),
+    "stopasync": StopAsyncIteration,
+    "arith": lambda: ArithmeticError("overflow in score"),
+    "zerodiv": lambda: ZeroDivisionError("division by zero"),
+    "attr": lambda: AttributeError("'NoneType' object has no attribute 'run'"),
+    "type": lambda: TypeError("unsupported operand"),
+    # classes defined by the harness
+    "badstr": UnprintableError,
+    "args": lambda: StructuredError(503, {"detail": ["x", None]}, None),
+}
+# families shown in the labels (raises-family=...)
+EXC_FAMILY = {
+    "message": "plain-message", "empty": "runtime-error", "timeout": "timeout", "assert": "assertion", "key": "lookup", "lookup": "lookup",
+    "index": "lookup", "multiline": "value-error", "unicode": "value-error", "oserror": "os-error", "notimpl": "not-implemented",
+    "notimpl-bare": "not-implemented", "notimpl-sub": "not-implemented", "recursion": "runtime-error", "stopiter": "stop-iteration",
+    "stopasync": "stop-iteration", "arith": "arithmetic", "zerodiv": "arithmetic", "attr": "attribute-or-type", "type": "attribute-or-type",
+    "badstr": "harness-class", "args": "harness-class",
 }
 
 
@@ -122,6 +181,19 @@ def _sub(case, plan):
     return {"config": case["config"], "turns": case["turns"], "api": case.get("api", "sync"), "plan": [list(s) for s in plan], "exc": case.get("exc", "message")}
 
 
+def _turn(p, s, t):
+    """pipeline.Pipeline.turn; an exception that leaves `generate` and cannot be rendered (str() raises: kind "badstr") is
+    recorded by its class name instead of breaking the harness."""
+    n_trace, n_llm = len(s.trace), len(s.llm_calls)
+    try:
+        return p.turn(s, t)
+    except TypeError as e:
+        if "UnprintableError" not in str(e):
+            raise
+        s.messages.append({"role": "user", "content": s.turns[t]["user"]})
+        return {"reply": None, "raised": "UnprintableError: <str() raises>", "log": None, "trace": s.trace[n_trace:], "llm": s.llm_calls[n_llm:]}
+
+
 def _run(case, plan, fresh=False, dry=None):
     """Runs the conversation with `plan` (like pipeline.run_conversation, plus a snapshot of the caller-side state after every
     turn).  Colang 2.x only, reused instance only: when `dry` is given the turns before the first planned fault are not
@@ -146,7 +218,7 @@ def _run(case, plan, fresh=False, dry=None):
             turns = list(dry.turns[:t0])
         snapshots = [None] * t0
         for t in range(t0, n):
-            turns.append(p.turn(s, t))
+            turns.append(_turn(p, s, t))
             snapshots.append({"state": s.state, "messages": list(s.messages)})
         obs = pipeline.Observations(sub, s, turns, p)
         obs.snapshots = snapshots
@@ -218,7 +290,17 @@ def _case(draw, tier):
     else:
         plans = draw(st.sampled_from(["singles"] * 5 + ["pairs"])) if v == 1 else "singles"
     return {"config": cfg, "turns": turns, "api": draw(st.sampled_from(["sync", "sync", "async"])), "plans": plans,
-            "exc": draw(st.sampled_from(["message", "message", "message"] + sorted(EXC_KINDS)))}
+            "exc": draw(st_exc_kind())}
+
+
+def st_exc_kind():
+    """What the failing action raises: every family has the same weight (so none is diluted when the pool grows), the kinds of a
+    family share it (families have 1, 2 or 3 kinds: 6 / size entries per kind in one flat list; "message" first = simplest)."""
+    pool = []
+    for k in ["message"] + sorted(EXC_KINDS):
+        size = sum(1 for g in EXC_FAMILY.values() if g == EXC_FAMILY[k])
+        pool += [k] * (6 // size)
+    return st.sampled_from(pool)
 
 
 def strategy(tier):
@@ -245,6 +327,20 @@ def enumerate_cases(tier):
             for t, r in enumerate(routes)
         ]
         yield {"config": cfg, "turns": turns, "api": "sync", "plans": "pairs" if (tier == "thorough" or cfg["v"] == 1) else "singles"}
+    # every exception kind of the pool x both Colang versions: 2-turn all-accepting conversations with an input rail, an output
+    # rail and the custom dialog action as sites in each turn (configurations rotate over the kinds)
+    small = {
+        1: [_mk_cfg(1, ["check"], ["check"], True, False), _mk_cfg(1, ["check", "rewrite"], ["check"], True, True), _mk_cfg(1, ["both"], ["rewrite", "check"], True, False, ret=1)],
+        2: [_mk_cfg(2, ["check"], ["check"], True, False), _mk_cfg(2, ["check"], ["check"], True, True, style="hand")],
+    }
+    for i, kind in enumerate(sorted(EXC_KINDS)):
+        for v in (1, 2):
+            cfg = small[v][i % len(small[v])]
+            turns = [
+                {"user": f"{fakes.mk_user(t)} what is the status", "route": r, "in": ["accept"] * len(cfg["in"]), "out": ["accept"] * len(cfg["out"]), "body": "some answer"}
+                for t, r in enumerate(["act_llm", "llm"] if i % 2 else ["llm", "act_llm"])
+            ]
+            yield {"config": cfg, "turns": turns, "api": "async" if i % 3 == 2 else "sync", "plans": "singles", "exc": kind}
 
 
 # ------------------------------------------------------------------------------------------------
@@ -478,14 +574,15 @@ def prop(case):
     labels.add("plans=" + (case.get("plans", "singles") if isinstance(case.get("plans", "singles"), str) else "explicit"))
     if cfg["exc"]:
         labels.add("rails-exceptions")
-    labels.add("raises=" + case.get("exc", "message"))
+    # the runner keeps the 60 most frequent labels: the family is a label, the kind within it a counter (cases.raises.<kind>)
+    labels.add("raises-family=" + EXC_FAMILY[case.get("exc", "message")])
     if v == 2:
         labels.add("v2-" + cfg.get("style", "config"))
     if cfg.get("ret"):
         labels.add("retrieval-rail")
     if any(any(x != "accept" for x in spec.get("in", []) + spec.get("out", [])) for spec in case["turns"]):
         labels.add("conversation-with-reject-or-rewrite")
-    counters = {"plans": 0, "plans.single": 0, "plans.pair": 0, "sites": len(sites), "runs": 1, "turns-executed": len(case["turns"])}
+    counters = {"plans": 0, "plans.single": 0, "plans.pair": 0, "sites": len(sites), "runs": 1, "turns-executed": len(case["turns"]), "cases.raises." + case.get("exc", "message"): 1}
     nt = False
     views = []
     for plan in plans:
